@@ -78,7 +78,7 @@ def check_case(acc: Acc, case):
     bound = obs.t0
     for t, _tid, _d, _f in obs.tx:
         bound = max(bound, t + T)
-    for t, _tid, _i, _d, ok in obs.deliveries:
+    for t, _tid, _i, _d, ok, _fl in obs.deliveries:
         if t <= obs.t_end + EPS:
             bound = max(bound, t + T)
     for t, outcome in obs.connects:
